@@ -573,3 +573,109 @@ def text_mode_selection(ctx, P):
             ctx.check('%s:text-mode:%s:%s' % (P, nm, p), 'R-sib', 'normalisation of signed document data in %s is selected by the signature type being Text' % p.split('::')[-1], good,
                       function=p, site=site(b, i))
     ctx.floor(P + ':text-mode:floor', 'sites selecting text canonicalisation for signatures', len(sites), 3)
+
+
+def path_balance(b, head, plus, minus, cap=4):
+    """Per-iteration balance of two call-site sets inside the natural loop of `head`: the set of (#plus - #minus) values over all
+    paths from the loop head back to it.  Returns (set of differences at the back edges, one offending back-edge source or None)."""
+    dom = b.dominators()
+    loop = natural_loop(b, head, dom)
+    if not loop:
+        return None, None
+    state = {}
+    work = []
+    for j, _ in b.succ(head):
+        if j in loop and j != head:
+            state.setdefault(j, set()).add(0)
+            work.append(j)
+    at_head = {}
+    while work:
+        i = work.pop()
+        d = 1 if i in plus else (-1 if i in minus else 0)
+        out = set(max(-cap, min(cap, x + d)) for x in state[i])
+        for j, _ in b.succ(i):
+            if j == head:
+                at_head.setdefault(i, set()).update(out)
+                continue
+            if j not in loop:
+                continue
+            cur = state.setdefault(j, set())
+            if not out <= cur:
+                cur |= out
+                work.append(j)
+    diffs = set()
+    bad = None
+    for u, s in sorted(at_head.items()):
+        diffs |= s
+        if s != {0} and bad is None:
+            bad = u
+    return diffs, bad
+
+
+def s02_9_parallel_slots(ctx, P):
+    """The streaming verifier keeps the finished digests and the signature packets in two vectors and the verification entry point
+    pairs `hash(index)` with `signature(index)`.  Necessary for C02: the two vectors stay index-aligned, i.e. on every iteration of
+    the loop that fills them the number of pushes onto each is the same (otherwise digest k is checked against the value of
+    signature j != k and signature j — whose own hashed area was never hashed — is returned as verified)."""
+    v = ctx.body('composed::message::types::Message::<\'a>::verify_nested_explicit') or None
+    cands = [p for p in ctx.f.bodies if p.endswith('::fill_inner') and 'SignatureManyReader' in p]
+    fb = ctx.body(cands[0]) if cands else None
+    if v is None or fb is None:
+        return
+    # the instance: both accessors are called with the caller's index
+    hs = [i for i, t in v.calls(r'SignatureManyReader::<.*>::hash$|SignatureManyReader::hash$') if has_origin(v.operand_origins(t['args'][1]), r'param:2$')]
+    ss = [i for i, t in v.calls(r'SignatureManyReader::<.*>::signature$|SignatureManyReader::signature$') if has_origin(v.operand_origins(t['args'][1]), r'param:2$')]
+    ctx.check(P + ':S02-9:slot-pairing-instance', 'R-table', 'verify_nested_explicit pairs reader.hash(index) with reader.signature(index) (same caller index)',
+              bool(hs) and bool(ss), function=v.path, sites=[site(v, x) for x in hs + ss])
+    plus = set(i for i, t in fb.calls(r'Vec::<T, A>::push$') if re.search(r'Vec::<std::option::Option<std::boxed::Box<\[u8\]>>>::push$', t['f'].get('full', '')))
+    minus = set(i for i, t in fb.calls(r'Vec::<T, A>::push$') if re.search(r'Vec::<[\w:]*FullSignaturePacket>::push$', t['f'].get('full', '')))
+    heads = [i for i, t in fb.calls(r'Iterator::next$') if re.search(r'Zip<.*SignaturePacket', t['f'].get('selfty', '') or '')]
+    if not (plus and minus and heads):
+        ctx.violation(P + ':S02-9:slots-pushed-in-pairs', 'R-pair', 'digest and signature slots are pushed in pairs', function=fb.path,
+                      missing='anchor: pushes onto the digest / signature vectors or the zip loop not found (%d/%d/%d)' % (len(plus), len(minus), len(heads)))
+        return
+    diffs, bad = path_balance(fb, heads[0], plus, minus)
+    ctx.check(P + ':S02-9:slots-pushed-in-pairs', 'R-pair',
+              'every iteration of the slot-filling loop of the streaming verifier pushes exactly as many digest slots as signature slots (hash(i) and signature(i) stay aligned)',
+              diffs == {0}, function=fb.path, digest_pushes=[site(fb, x) for x in sorted(plus)], signature_pushes=[site(fb, x) for x in sorted(minus)],
+              differences=sorted(diffs or []), missing=None if diffs == {0} else 'an iteration ending at %s pushes a digest slot without a signature slot (or vice versa)' % site(fb, bad))
+    # every one-pass slot consumes exactly one trailing signature: pops balance the Ops arms
+    pops = set(i for i, t in fb.calls(r'Vec::<T, A>::pop$') if 'Signature>::pop' in t['f'].get('full', ''))
+    from rules.common import arm_context
+    dom = fb.dominators()
+    ops_sig_push = set(i for i in minus if any(a == 'SignaturePacket' and vs == ['Ops'] for a, vs in arm_context(fb, i, dom)))
+    ok, wit = must_pass(fb, sorted(ops_sig_push), sorted(pops)) if ops_sig_push and pops else (False, None)
+    ctx.check(P + ':S02-9:ops-slot-pops-one-signature', 'R-dom', 'the signature stored in a one-pass slot is the one popped from the trailing signatures for that slot',
+              ok, function=fb.path, sites=[site(fb, x) for x in sorted(pops)], witness=fmt_path(fb, wit) if wit else None)
+
+
+def s02_10_result_slot_same_iteration(ctx, P):
+    """Message::verify_nested reports one result per key.  Necessary for C02 (another key must not be credited): a slot is set to
+    Valid only on the Ok edge of a verify_nested_explicit call made in the same iteration over (key, slot) pairs — no path from the
+    pair iterator's `next` to the Valid store avoids that edge (which is how a result carried over from an earlier key would arrive)."""
+    from rules.common import edge_variants
+    b = ctx.body("composed::message::types::Message::<'a>::verify_nested")
+    if b is None:
+        return
+    heads = [i for i, t in b.calls(r'Iterator::next$') if re.search(r'VerifyingKey.*VerificationResult', t['f'].get('selfty', '') or '')]
+    valids = sorted(set(i for (i, k, s) in b.constructs(r'VerificationResult$', 'Valid')))
+    ok_edges = set()
+    for i, t in b.switches():
+        if not has_origin(b.switch_origins(i), r'call:.*verify_nested_explicit$'):
+            continue
+        for j, _ in b.succ(i):
+            if edge_variants(b, i, j) == ['Ok']:
+                ok_edges.add((i, j))
+    key = P + ':S02-10:valid-slot-from-same-iteration'
+    desc = 'Message::verify_nested marks a key\'s slot Valid only on the Ok edge of verify_nested_explicit evaluated for that key in the same iteration'
+    if not (heads and valids and ok_edges):
+        ctx.violation(key, 'R-dom', desc, function=b.path, missing='anchor: pair iterator / Valid store / Ok edge not found (%d/%d/%d)' % (len(heads), len(valids), len(ok_edges)))
+        return
+    bad = None
+    for h in heads:
+        for j, _ in b.succ(h):
+            p = b.find_path(j, set(valids), removed=frozenset([h]), removed_edges=frozenset(ok_edges))
+            if p is not None:
+                bad = p
+    ctx.check(key, 'R-dom', desc, bad is None, function=b.path, sites=[site(b, v) for v in valids], guards=[site(b, i) for i, _ in sorted(ok_edges)],
+              witness=fmt_path(b, bad) if bad else None, missing='a (key, slot) iteration can store Valid without its own successful verification' if bad else None)
